@@ -73,8 +73,8 @@ func NewUnaryHandler[Req, Res any](
 		if err != nil {
 			return err
 		}
-		mergeHeaders(conn.ResponseHeader(), response.Header())
-		mergeHeaders(conn.ResponseTrailer(), response.Trailer())
+		mergeMetadata(conn.ResponseHeader(), response.Header())
+		mergeMetadata(conn.ResponseTrailer(), response.Trailer())
 		return conn.Send(response.Any())
 	}
 
@@ -102,8 +102,8 @@ func NewClientStreamHandler[Req, Res any](
 			if err != nil {
 				return err
 			}
-			mergeHeaders(conn.ResponseHeader(), res.header)
-			mergeHeaders(conn.ResponseTrailer(), res.trailer)
+			mergeMetadata(conn.ResponseHeader(), res.header)
+			mergeMetadata(conn.ResponseTrailer(), res.trailer)
 			return conn.Send(res.Msg)
 		},
 		options...,
